@@ -21,7 +21,7 @@ def run(ctx):
     ctx.cov["rule"] = ("same generator as C01 (chains of 1..3 sequences, all encoder options, header sizes 12/14, 255-field and 255-byte boundary messages); every accepted output is "
                        "checked against Wire.wf_stream_b inside Coq and against decoder.CheckIntegrity; plus the C09 oracle (all writer kinds, buffer sizes, stream, earlier content) on 14 chains; non-trivial = accepted encode; distinct by output bytes")
     ctx.cov["checker_cmd"] = "coq/build.sh Props/C02.vo Run/RunC01.vo; coqc Props/C02.v; coqc cases_C02_*.v (vm_compute: check_enc, check_wf, check_wf_legacy)"
-    tr = ctx.prepare(parts=["factory", "dump-consts", "crc"])
+    tr = ctx.prepare(parts=["factory", "dump-consts", "crc", "decoder-reset", "convmode"])
     ok, _ = ctx.coq(["Props/C02.vo", "Run/RunC01.vo"])
     if ok:
         ctx.props()
